@@ -381,7 +381,16 @@ class Origins:
         args = ()
         if depth < 60:
             args = tuple(self.of_operand(a, depth + 1, stack) for a in t["args"])
+        m = _INT_FROM.search(res or "") if len(args) == 1 else None
+        if m and m.group(1) in _INT_TYPES and m.group(2) in _INT_TYPES:
+            # `usize::from(x)` / `u32::from(x)` between integer types: the lossless spelling of `x as usize`
+            return self._wrap(("cast", m.group(1), m.group(2), args[0]), self._unwrap_rest(rest))
         return self._wrap(("call", res or "<indirect>", bi, args), self._unwrap_rest(rest))
+
+
+import re as _re
+_INT_FROM = _re.compile(r"From<(\w+)> for (\w+)>::from$")
+_INT_TYPES = {"u8", "u16", "u32", "u64", "u128", "usize", "i8", "i16", "i32", "i64", "i128", "isize"}
 
 
 def _drop_failures(t):
